@@ -305,3 +305,23 @@ func AddWarned(t *rapid.T, g *Grammar) []string {
 	}
 	return kinds
 }
+
+// PadRules inserts a chain of k reachable filler rules  Pi <- 'p' P(i+1)?  at index at (>= 1)
+// and appends  P0?  to the first rule: the rules behind the chain get rule numbers that are
+// larger by k, which is how a small grammar gets rule numbers on both sides of 255 / 256.
+func PadRules(g *Grammar, at, k int) {
+	if k <= 0 || at < 1 || at > len(g.Rules) {
+		return
+	}
+	for i := k - 1; i >= 0; i-- {
+		var body *Expr
+		if i == k-1 {
+			body = Lit("p")
+		} else {
+			// P(i+1) sits at index at right now; InsertRule moves it (and this reference) up by one
+			body = Seq(Lit("p"), Un(KOpt, Ref(at)))
+		}
+		InsertRule(g, at, &Rule{Name: fmt.Sprintf("P%d", i), Body: body})
+	}
+	g.Rules[0].Body = Seq(g.Rules[0].Body, Un(KOpt, Ref(at)))
+}
